@@ -433,13 +433,25 @@ def sample(strategy, seed_value, n):
     """Draw up to n examples from a strategy with a fixed seed (Hypothesis used
     purely as generator: generate phase only)."""
     from hypothesis import given, seed, settings, Phase, HealthCheck
+    import json
     out = []
+    seen = set()
 
+    # (the generate phase repeats examples; duplicates are dropped and up to 3n draws are made)
     @seed(seed_value)
-    @settings(max_examples=n, database=None, deadline=None, phases=[Phase.generate],
+    @settings(max_examples=3 * n, database=None, deadline=None, phases=[Phase.generate],
               suppress_health_check=list(HealthCheck), derandomize=False)
     @given(strategy)
     def collect(x):
+        if len(out) >= n:
+            return
+        try:
+            key = json.dumps(x, sort_keys=True, default=repr)
+        except Exception:
+            key = repr(x)
+        if key in seen:
+            return
+        seen.add(key)
         out.append(x)
     collect()
     return out[:n]
